@@ -673,3 +673,12 @@ def run(chk, repo, tier):
     from .. import sweeps
     sweeps.override_compat(chk, repo, 'R05.9', rels=[BASE, RAW, INC, GDATA],
                            minimum=20)
+    # the wrapper's three evaluators as a whole (which datum is required,
+    # when the table correlation is consulted, what its range error becomes)
+    from .. import reviewed as _rv
+    for mname in ('get_CpoR', 'get_HoRT', 'get_SoR'):
+        _rv.check(chk, 'R05.6', repo, INC, 'ThermochemIncomplete.' + mname,
+                  'ThermochemIncomplete.%s is unchanged in normal form from '
+                  'its reviewed reference (reference value at T_ref without '
+                  'heat-capacity data, delegate with them)' % mname)
+
